@@ -197,14 +197,24 @@ def check_mesh(ctx, V, F, surf, what, sig, expect_spacing=None, sample=None, tri
     us = sorted({round(uv[0], 10) for _, uv, _ in V})
     vs = sorted({round(uv[1], 10) for _, uv, _ in V})
     uvs = {vid: uv for vid, uv, _ in V}
-    # orientation
+    # orientation (for trimmed surfaces only away from the trim: the clipping near the trim boundary is a heuristic that the
+    # statement only bounds 'to within one sampling cell', slivers and degenerate triangles there are not judged)
+    near = None
+    if trim is not None:
+        xs_ = [p[0] for p in trim["points"]]
+        ys_ = [p[1] for p in trim["points"]]
+        mu = 1.5 / max(1, (sample[0] - 1) // (expect_spacing or 1)) if sample else 0.5
+        mv = 1.5 / max(1, (sample[1] - 1) // (expect_spacing or 1)) if sample else 0.5
+        near = (min(xs_) - mu, max(xs_) + mu, min(ys_) - mv, max(ys_) + mv)
     signs = set()
     for t in F:
+        if near is not None and any(near[0] <= uvs[i][0] <= near[1] and near[2] <= uvs[i][1] <= near[3] for i in t):
+            continue
         a = _tri_area_uv(uvs[t[0]], uvs[t[1]], uvs[t[2]])
         if abs(a) < 1e-14:
             ctx.fail("mesh_invalid", "%s: face %r has zero area in the parameter plane" % (what, t), check="face_area", **sig)
         signs.add(a > 0)
-    if len(signs) != 1:
+    if len(signs) > 1:
         ctx.fail("mesh_invalid", "%s: triangles are not consistently oriented in the parameter plane" % what, check="orientation", **sig)
     if trim is None:
         # full grid
